@@ -16,7 +16,11 @@ For the mechanism model (`Struct/Mech.lean`, tied to the code edit by edit) the 
 the property is a theorem: in every reachable state every direct base exists, every space has a
 C3 linearisation and the base relation has no cycle (`reachable_has_linearisation`,
 `reachable_bases_exist`, `base_relation_acyclic`, from the invariant `SM.Inv` preserved by all
-twelve operations).
+twelve operations).  Calls that create several cells at once (`new_cells_from_pandas` etc., a loop of single
+creations in the code) are modelled in `Struct/MechBatch.lean`: the atomic call that checks everything up
+front equals the loop on every reachable state (`batch_accepted_equals_sequence`), refuses exactly when the
+loop would stop (`batch_refused_iff_sequence_refused`), and the loop leaves created cells behind when it
+stops half-way (`loop_refused_halfway_differs`).
 -/
 namespace MxModel.C11
 open MxModel.Names MxModel.Generated MxModel.C3
